@@ -290,7 +290,7 @@ func runC11Mux(c C11Case) (ev.Outcome, bool) {
 	f := c.Failure
 	var cut *cutConn
 	var wrap func(int, net.Conn) net.Conn
-	if f.Kind == "cut_write" || f.Kind == "cut_read" {
+	if f.Kind == "cut_write" || f.Kind == "cut_read" || f.Kind == "read_error" {
 		wrap = func(side int, raw net.Conn) net.Conn {
 			if side != f.Side {
 				return raw
@@ -305,9 +305,23 @@ func runC11Mux(c C11Case) (ev.Outcome, bool) {
 					cut.gate = false
 				}
 			}
-			if f.Kind == "cut_write" {
+			switch f.Kind {
+			case "cut_write":
 				cut.wLimit = f.CutAfter
-			} else {
+			case "read_error":
+				cut.rLimit = f.CutAfter
+				cut.injErr, cut.injData = readErrOf(f.ErrClass), f.ErrWithData
+				cut.onInject = func(expectFailure bool) {
+					r.snapshotActivity()
+					r.cutDone.Store(true)
+					r.primOnce.Do(func() { close(r.primaryDoneC) })
+					if expectFailure {
+						r.markFailure()
+					} else {
+						r.addClass("read_error_dropped_by_complete_read")
+					}
+				}
+			default:
 				cut.rLimit = f.CutAfter
 			}
 			cut.onCut = func() {
@@ -479,7 +493,7 @@ func runC11Mux(c C11Case) (ev.Outcome, bool) {
 	go func() {
 		defer eventsWG.Done()
 		defer r.recoverPanic("failure goroutine")
-		if f.Kind != "close_mux" && f.Kind != "close_conn" {
+		if f.Kind != "close_mux" && f.Kind != "close_conn" && f.Kind != "deadline" {
 			return
 		}
 		r.eventsWaiting.Add(1)
@@ -493,6 +507,19 @@ func runC11Mux(c C11Case) (ev.Outcome, bool) {
 		defer r.eventsRunning.Add(-1)
 		if f.DelayUs > 0 {
 			time.Sleep(time.Duration(f.DelayUs) * time.Microsecond)
+		}
+		if f.Kind == "deadline" {
+			// a real read deadline on the trunk, cleared again: whether the reader runs into it
+			// depends on the schedule, so no failure is taken for granted
+			r.snapshotActivity()
+			tr := r.p.m[f.Side].Trunk()
+			_ = tr.SetReadDeadline(time.Now())
+			if f.DelayUs > 0 {
+				time.Sleep(time.Duration(f.DelayUs) * time.Microsecond)
+			}
+			_ = tr.SetReadDeadline(time.Time{})
+			r.primOnce.Do(func() { close(r.primaryDoneC) })
+			return
 		}
 		r.snapshotActivity()
 		if f.Kind == "close_mux" {
@@ -1012,7 +1039,13 @@ func (r *c11run) verdict(stackDump string) (ev.Outcome, bool) {
 		r.nonTrivial.Store(true)
 	}
 	switch c.Failure.Kind {
-	case "cut_write", "cut_read":
+	case "cut_write", "cut_read", "read_error":
+		if c.Failure.ErrClass != "" {
+			add("read_error:" + c.Failure.ErrClass)
+			if c.Failure.ErrWithData {
+				add("read_error_with_data")
+			}
+		}
 		if c.Failure.CutWhere != "" {
 			add("cut_at:" + c.Failure.CutWhere)
 		}
